@@ -438,6 +438,19 @@ fn main() {
                     let ne = if with_ranges && rng.chance(1, 3) { 0 } else { rng.range(1, 4) };
                     let mut edits = Vec::new();
                     for _ in 0..ne {
+                        // one edit in three replaces the last character before a token boundary by a token of the
+                        // document's alphabet (punctuation flips such as `?` -> `!` re-reduce the enclosing node with a
+                        // sibling production while everything before the edit is reused)
+                        if rng.chance(1, 3) && !bounds.is_empty() {
+                            let b = (*rng.pick(&bounds)).min(cur.len());
+                            if b >= 1 {
+                                let a: &[u8] = alpha_refs[rng.below(alpha_refs.len())];
+                                let te = TextEdit { start: b - 1, old_end: b, ins: a.to_vec() };
+                                cur = te.apply(&cur);
+                                edits.push(te);
+                                continue;
+                            }
+                        }
                         let te = random_edit(&mut rng, &cur, &bounds, &alpha_refs);
                         cur = te.apply(&cur);
                         edits.push(te);
